@@ -352,18 +352,19 @@ class PartialJoin(UnaryOperation):
         from ._deduplication import Deduplication
         from ._projection import Projection
 
-        if not (self.fixed.columns & current.target.columns) <= self.binary.min_columns:
+        if not (self.fixed.columns & (current.target.columns | current.columns)) <= self.binary.min_columns:
             # Upstream of `current` the target has a column (hidden or replaced
-            # downstream) with the same name as a column of the fixed relation
-            # that is not one of the (already resolved) common columns; joining
-            # there would let one silently shadow the other.
+            # downstream), or `current` itself adds a column, with the same
+            # name as a column of the fixed relation that is not one of the
+            # (already resolved) common columns; joining there would let one
+            # silently shadow the other (or make `current` inapplicable).
             return UnaryCommutator(
                 first=None,
                 second=current.operation,
                 done=False,
                 messages=(
-                    f"{current.target} has columns "
-                    f"{set((self.fixed.columns & current.target.columns) - self.binary.min_columns)} "
+                    f"{current} has columns "
+                    f"{set((self.fixed.columns & (current.target.columns | current.columns)) - self.binary.min_columns)} "
                     "that would be shadowed by the join",
                 ),
             )
